@@ -38,6 +38,15 @@ theorem sdp_roundtrip (fixed : Bool) (t : SDPType) (ht : t ≠ .other) (sdp : Te
   rw [roundtrip_items fixed t ht]
   simp only [ofText, List.map_map, map_getD_some]
 
+/-- **Distinct descriptions have distinct serialisations**: type and SDP text are both recoverable, so no two
+descriptions can be confused on the wire (corollary of `sdp_roundtrip`). -/
+theorem serialize_injective (t u : SDPType) (ht : t ≠ .other) (hu : u ≠ .other) (a b : Text)
+    (h : serialize t (ofText a) = serialize u (ofText b)) : t = u ∧ a = b := by
+  have h1 := sdp_roundtrip true t ht a
+  have h2 := sdp_roundtrip true u hu b
+  rw [h, h2] at h1
+  injection h1 with e1 e2
+  exact ⟨e1.symm, e2.symm⟩
 /-- Same statement on raw bytes: a valid-UTF-8 Go string survives `[]byte`/`string` conversions,
 `Marshal`, and `Unmarshal` of the UTF-8 encoded JSON text. -/
 theorem sdp_roundtrip_bytes (fixed : Bool) (t : SDPType) (ht : t ≠ .other) (sdp : Text) :
